@@ -479,6 +479,15 @@ func vc_CellBytes_loop2_inv(i int, intg0 int, intg0x int, pos int, flag bool, tx
 		vspec.BufIs(txt, vspec.Cat(specSign(isNegative), specDecIntText(data, old_pos, isNegative, lb, i)))
 }
 
+// loop 3: the full 9-digit fraction groups
+func vc_CellBytes_loop3_inv(i int, frac0 int, intg0 int, intg0x int, pos int, txt *bytes.Buffer, isNegative bool, data []byte, old_pos int) bool {
+	lb := specDig2bytes[intg0x]
+	ib := lb + 4*intg0
+	return i >= 0 && i <= frac0 && pos == ib+4*i &&
+		vspec.BufIs(txt, vspec.Cat(specSign(isNegative), specDecIntPart(data, old_pos, isNegative, lb, intg0), vspec.Lit("."),
+			specDecFracText(data, old_pos, isNegative, ib, i)))
+}
+
 // ---- exported views of the cell spec for contracts of the parent package ----
 
 // SpecCellLen is the length rule of one cell (see specCellLen).
